@@ -53,7 +53,7 @@ pub fn cfg_id(e: End, wbits: usize, wrapper: &str) -> String {
 }
 
 pub fn replay_doc(e: End, wbits: usize, wrapper: &str, backend: &str, finisher: &str, ops: &[WOp]) -> Value {
-    json!({"kind": "writer", "e": e, "wbits": wbits, "wrapper": wrapper, "backend": backend, "finisher": finisher, "ops": ops})
+    json!({"kind": "writer", "e": e, "wbits": wbits, "wrapper": wrapper, "backend": backend, "finisher": finisher, "ops": ops, "io_align": crate::util::io_align()})
 }
 
 /// model image of a whole history: (bits incl. flush padding, expected observations, written)
@@ -319,6 +319,7 @@ pub fn replay(doc: &Value) -> (Vec<String>, bool) {
     let backend = doc["backend"].as_str().unwrap_or("rec").to_string();
     let finisher = doc["finisher"].as_str().unwrap_or("flush").to_string();
     let ops: Vec<WOp> = serde_json::from_value(doc["ops"].clone()).unwrap();
+    crate::util::set_io_align(doc.get("io_align").and_then(|a| a.as_u64()).map(|a| a as u8));
     let mut log = vec![];
     let mut failed = false;
     // step-by-step on the recording backend
